@@ -193,7 +193,8 @@ pub fn plan_reward_auth(w: &World, k: &Knobs, actor: &mut Actor, l: &Ledger) -> 
     match action {
         0 | 1 if n_init < 3 || rng.chance(1, 6) => {
             // initialize the next reward (or a wrong index)
-            let idx = if rng.chance(1, 8) { rng.below(4) as u8 } else { n_init as u8 };
+            // (one time in eight some index; one time in eight an index that is already taken)
+            let idx = if rng.chance(1, 8) { rng.below(4) as u8 } else if n_init > 0 && rng.chance(1, 7) { rng.below(n_init as u64) as u8 } else { n_init as u8 };
             let used: Vec<_> = pool.rewards.iter().map(|r| r.mint).collect();
             // usually a fresh mint; sometimes the mint another reward index of this pool already uses
             let shared = w.reward_mints.iter().find(|m| used.contains(&m.key));
